@@ -56,6 +56,34 @@ impl std::fmt::Display for ClosedStream {
 }
 impl std::error::Error for ClosedStream {}
 
+/// The single, ordered event log of one scenario (shared by both endpoints in pair mode and by the application tasks).
+#[derive(Clone, Default)]
+pub struct Log(pub Arc<Mutex<Vec<Value>>>);
+
+impl Log {
+    pub fn push(&self, v: Value) {
+        let mut g = match self.0.lock() { Ok(g) => g, Err(p) => p.into_inner() };
+        // merge consecutive writes on the same stream into one event
+        if v["ev"] == "wrote" {
+            if let Some(last) = g.last_mut() {
+                if last["ev"] == "wrote" && last["sid"] == v["sid"] && last["net"] == v["net"] {
+                    let more = v["bytes"].as_array().cloned().unwrap_or_default();
+                    last["bytes"].as_array_mut().unwrap().extend(more);
+                    return;
+                }
+            }
+        }
+        g.push(v);
+    }
+    pub fn take(&self) -> Vec<Value> {
+        let mut g = match self.0.lock() { Ok(g) => g, Err(p) => p.into_inner() };
+        std::mem::take(&mut *g)
+    }
+    pub fn len(&self) -> usize {
+        match self.0.lock() { Ok(g) => g.len(), Err(p) => p.into_inner().len() }
+    }
+}
+
 #[derive(Default)]
 struct Stream {
     // peer -> h3
@@ -72,6 +100,11 @@ struct Stream {
     tx_stop: Option<u64>,
     tx_allow: u64,
     tx_w: Vec<Waker>,
+    /// bytes h3 wrote that the runner has not yet carried to the other endpoint (pair mode)
+    tx_buf: Vec<u8>,
+    tx_fin_xfer: bool,
+    tx_reset_xfer: bool,
+    rx_stop_xfer: bool,
     has_tx: bool,
     has_rx: bool,
 }
@@ -92,7 +125,8 @@ pub struct NetState {
     peer_close: Option<PeerClose>,
     pub local_close: Vec<u64>,
     pub write_mode: WriteMode,
-    pub log: Vec<Value>,
+    pub log: Log,
+    pub keep_tx: bool,
     dgram_in: VecDeque<Bytes>,
     w_dgram: Vec<Waker>,
     pub dgram_avail: bool,
@@ -117,7 +151,7 @@ fn reg(v: &mut Vec<Waker>, cx: &Context<'_>) {
 }
 
 impl Net {
-    pub fn new(role: Role, tag: &'static str) -> Net {
+    pub fn new(role: Role, tag: &'static str, log: Log) -> Net {
         let (next_uni, next_bidi) = match role {
             Role::Server => (3, 1),
             Role::Client => (2, 0),
@@ -138,7 +172,8 @@ impl Net {
             peer_close: None,
             local_close: vec![],
             write_mode: WriteMode::All,
-            log: vec![],
+            log,
+            keep_tx: false,
             dgram_in: VecDeque::new(),
             w_dgram: vec![],
             dgram_avail: true,
@@ -269,8 +304,37 @@ impl Net {
         wake_all(&mut n.w_dgram);
     }
 
-    pub fn take_log(&self) -> Vec<Value> {
-        std::mem::take(&mut self.lock().log)
+    /// pair mode: everything h3 did on its streams that has not been carried over yet
+    /// returns (sid, bytes, fin, reset, stop) per stream with something pending
+    pub fn take_pending(&self, only: Option<u64>, max: Option<usize>) -> Vec<(u64, Vec<u8>, bool, Option<u64>, Option<u64>)> {
+        let mut n = self.lock();
+        let mut out = vec![];
+        for (id, s) in n.streams.iter_mut() {
+            if only.is_some() && only != Some(*id) {
+                continue;
+            }
+            let k = max.unwrap_or(usize::MAX).min(s.tx_buf.len());
+            let bytes: Vec<u8> = s.tx_buf.drain(..k).collect();
+            let drained = s.tx_buf.is_empty();
+            let fin = drained && s.tx_fin && !s.tx_fin_xfer && s.tx_reset.is_none();
+            if fin {
+                s.tx_fin_xfer = true;
+            }
+            let reset = if s.tx_reset.is_some() && !s.tx_reset_xfer && !s.tx_fin_xfer { s.tx_reset_xfer = true; s.tx_buf.clear(); s.tx_reset } else { None };
+            let stop = if s.rx_stopped.is_some() && !s.rx_stop_xfer { s.rx_stop_xfer = true; s.rx_stopped } else { None };
+            if !bytes.is_empty() || fin || reset.is_some() || stop.is_some() {
+                out.push((*id, bytes, fin, reset, stop));
+            }
+        }
+        out
+    }
+
+    pub fn first_local_close(&self) -> Option<u64> {
+        self.lock().local_close.first().copied()
+    }
+
+    pub fn peer_closed(&self) -> bool {
+        self.lock().peer_close.is_some()
     }
 
     pub fn effects(&self) -> u64 {
@@ -282,14 +346,11 @@ impl NetState {
     fn ev(&mut self, mut v: Value) {
         v["net"] = json!(self.tag);
         self.effects += 1;
-        // merge consecutive writes on the same stream into one event
-        if v["ev"] == "wrote" {
-            if let Some(last) = self.log.last_mut() {
-                if last["ev"] == "wrote" && last["sid"] == v["sid"] {
-                    let more = v["bytes"].as_array().cloned().unwrap_or_default();
-                    last["bytes"].as_array_mut().unwrap().extend(more);
-                    return;
-                }
+        if self.keep_tx && v["ev"] == "wrote" {
+            let sid = v["sid"].as_u64().unwrap_or(0);
+            let bytes: Vec<u8> = v["bytes"].as_array().map(|a| a.iter().map(|x| x.as_u64().unwrap_or(0) as u8).collect()).unwrap_or_default();
+            if let Some(s) = self.streams.get_mut(&sid) {
+                s.tx_buf.extend_from_slice(&bytes);
             }
         }
         self.log.push(v);
